@@ -119,7 +119,7 @@ pub fn compile_to_avbc_with_output(
     .compile_typed(&typed_program)
     .map_err(|err| err.to_string())?;
 
-    // strip debug info (function names, variable names, line info) for release builds
+    // strip debug info (line info) for release builds; names are observable and stay
     if opt_level != OptimizationLevel::None {
         function.strip_debug_info();
     }
